@@ -183,8 +183,10 @@ pub fn calls_from_tree(nodes: &[Node], collapse: &mut dyn FnMut(&Node) -> bool, 
     out
 }
 
+/// A master can be presented as one Full item when its descendants all use default options (children of a Full cannot
+/// carry options); its own option — default, explicit width or unknown size — goes with the Full item.
 pub fn collapsible(n: &Node) -> bool {
-    n.is_master() && n.opt != SizeOpt::Unknown && n.children.iter().all(all_default)
+    n.is_master() && n.children.iter().all(all_default)
 }
 
 fn all_default(n: &Node) -> bool {
